@@ -84,6 +84,7 @@ def lemma_obligations(sp):
     ex = Exec(ctx, sp.file, contract=None, spec_mode=True)
     ex.max_unfold = getattr(sp, "unfold", 2)
     ex.fn_stack = [(sp.node(), None)]
+    ctx.revealed = set(getattr(sp, "reveal", ()))
     from .core import Facts
     facts = Facts()
     st = State({}, [], facts)
